@@ -48,24 +48,25 @@ theorem validName_head_ne {n : Str} (hn : validName n = true) :
   exact ⟨c, cs, rfl, by intro e; subst e; revert hc; decide, not_space_of_not_stop hc⟩
 
 /-- the serialisation of element content never looks like the beginning of an XML declaration -/
-theorem body_no_decl (dt : Bool) (fs : List FEv) (h : contentOK dt fs = true) (st : SerSt) (hst : st.inCdata = false)
+theorem body_no_decl (rep : Char → Bool) (hrep : AsciiRep rep) (dt : Bool) (fs : List FEv)
+    (h : contentOK dt fs = true) (st : SerSt) (hst : st.inCdata = false)
     (hdt : dt = true → st.haveDoctype = false)
-    (out : Str) (hser : serRun st fs = some out) :
+    (out : Str) (hser : serRunEnc rep st fs = some out) :
     ∀ rest, stripPrefix ['<', '?', 'x', 'm', 'l'] out = some rest → ∃ c r, rest = c :: r ∧ isSpace c = false := by
   intro rest hr
   cases fs with
   | nil =>
-    simp only [serRun, Option.some.injEq] at hser
+    simp only [serRunEnc, Option.some.injEq] at hser
     subst hser
     simp [stripPrefix, List.isPrefixOf] at hr
   | cons e es =>
-    rw [serRun_cons] at hser
+    rw [serRunEnc_cons] at hser
     cases e with
     | start n a =>
       simp only [contentOK, Bool.and_eq_true] at h
       obtain ⟨c, cs, rfl, hq, _⟩ := validName_head_ne h.1.1
-      simp only [serStep, emitStart] at hser
-      cases hrun : serRun st es with
+      simp only [serStepEnc] at hser
+      cases hrun : serRunEnc rep st es with
       | none => rw [hrun] at hser; cases hser
       | some o =>
         rw [hrun] at hser
@@ -77,8 +78,8 @@ theorem body_no_decl (dt : Bool) (fs : List FEv) (h : contentOK dt fs = true) (s
     | empty n a =>
       simp only [contentOK, Bool.and_eq_true] at h
       obtain ⟨c, cs, rfl, hq, _⟩ := validName_head_ne h.1.1
-      simp only [serStep, emitStart] at hser
-      cases hrun : serRun st es with
+      simp only [serStepEnc] at hser
+      cases hrun : serRunEnc rep st es with
       | none => rw [hrun] at hser; cases hser
       | some o =>
         rw [hrun] at hser
@@ -88,8 +89,8 @@ theorem body_no_decl (dt : Bool) (fs : List FEv) (h : contentOK dt fs = true) (s
         rw [stripPrefix_decl_second c _ hq] at hr
         cases hr
     | end_ n =>
-      simp only [serStep, emitEnd] at hser
-      cases hrun : serRun st es with
+      simp only [serStepEnc, serStep, emitEnd] at hser
+      cases hrun : serRunEnc rep st es with
       | none => rw [hrun] at hser; cases hser
       | some o =>
         rw [hrun] at hser
@@ -105,16 +106,16 @@ theorem body_no_decl (dt : Bool) (fs : List FEv) (h : contentOK dt fs = true) (s
         obtain ⟨⟨⟨⟨hsafe, hne⟩, hok⟩, _⟩, _⟩ := h
         subst hsafe
         have hs : s ≠ [] := by intro e; simp [e] at hne
-        simp only [serStep, hst, Bool.false_eq_true, or_self, if_false] at hser
-        cases hrun : serRun st es with
+        simp only [serStepEnc, hst, Bool.false_eq_true, or_self, if_false] at hser
+        cases hrun : serRunEnc rep st es with
         | none => rw [hrun] at hser; cases hser
         | some o =>
           rw [hrun] at hser
           simp only [Option.map_some, Option.some.injEq] at hser
           subst hser
-          obtain ⟨c1, _, _, _, c5⟩ := escapePy_chars false s
-          obtain ⟨c, cs, hcs⟩ : ∃ c cs, escapePy false s = c :: cs := by
-            cases hq : escapePy false s with
+          obtain ⟨c1, _, _, _, c5⟩ := encEscStr_chars rep hrep false s
+          obtain ⟨c, cs, hcs⟩ : ∃ c cs, encEscStr rep false s = c :: cs := by
+            cases hq : encEscStr rep false s with
             | nil => exact absurd hq (c5 hs)
             | cons c cs => exact ⟨c, cs, rfl⟩
           rw [hcs] at hr c1
@@ -122,8 +123,8 @@ theorem body_no_decl (dt : Bool) (fs : List FEv) (h : contentOK dt fs = true) (s
           rw [stripPrefix_decl_first c _ (fun e => c1 (by simp [e]))] at hr
           cases hr
       | comment s =>
-        simp only [serStep] at hser
-        cases hrun : serRun st es with
+        simp only [serStepEnc, serStep] at hser
+        cases hrun : serRunEnc rep st es with
         | none => rw [hrun] at hser; cases hser
         | some o =>
           rw [hrun] at hser
@@ -138,8 +139,8 @@ theorem body_no_decl (dt : Bool) (fs : List FEv) (h : contentOK dt fs = true) (s
         unfold piOK at hp
         simp only [Bool.and_eq_true, Bool.not_eq_true', decide_eq_true_eq] at hp
         obtain ⟨⟨⟨⟨⟨p1, _⟩, p3⟩, _⟩, _⟩, _⟩ := hp
-        simp only [serStep] at hser
-        cases hrun : serRun st es with
+        simp only [serStepEnc, serStep] at hser
+        cases hrun : serRunEnc rep st es with
         | none => rw [hrun] at hser; cases hser
         | some o =>
           rw [hrun] at hser
@@ -171,8 +172,8 @@ theorem body_no_decl (dt : Bool) (fs : List FEv) (h : contentOK dt fs = true) (s
               exact not_space_of_not_stop (by simpa using this)
           · cases hr
       | startCdata =>
-        simp only [serStep] at hser
-        cases hrun : serRun { st with inCdata := true } es with
+        simp only [serStepEnc, serStep] at hser
+        cases hrun : serRunEnc rep { st with inCdata := true } es with
         | none => rw [hrun] at hser; cases hser
         | some o =>
           rw [hrun] at hser
@@ -188,8 +189,8 @@ theorem body_no_decl (dt : Bool) (fs : List FEv) (h : contentOK dt fs = true) (s
         | true =>
           simp only [contentOK, Bool.and_eq_true] at h
           obtain ⟨m, hm1, _, ⟨r0, hm0⟩, _⟩ := doctype_piece n p s h.1.1
-          simp only [serStep, hdt rfl, Bool.false_eq_true, if_false, hm1, Option.map_some] at hser
-          cases hrun : serRun { st with haveDoctype := true } es with
+          simp only [serStepEnc, serStep, hdt rfl, Bool.false_eq_true, if_false, hm1, Option.map_some] at hser
+          cases hrun : serRunEnc rep { st with haveDoctype := true } es with
           | none => rw [hrun] at hser; cases hser
           | some o =>
             rw [hrun] at hser
@@ -239,27 +240,28 @@ theorem cr_not_mem_declTail (v : Str) (enc : Option Str) (sa : Int) (h : declOK 
   rw [declTail_eq]
   exact nm_app (nm_app (nm_app (nm_app (nm_app (by decide) hv) (by decide)) he) hs) (by decide)
 
-/-- **the tokenizer is a left inverse of the serializer** on content with at most one DOCTYPE -/
-theorem tokenize_content (fs : List FEv) (h : contentOK true fs = true) (st : SerSt)
-    (hst : st.inCdata = false) (hdt : st.haveDoctype = false) :
-    ∃ out, serRun st fs = some out ∧ tokenize out = some (tokOf fs) := by
-  obtain ⟨out, r⟩ := tokGo_content true fs h st hst (fun _ => hdt)
-  exact ⟨out, r.ser, tokenize_of_tokGo out _ r.nocr (body_no_decl true fs h st hst (fun _ => hdt) out r.ser)
-    (r.tok _ (Nat.lt_succ_self _))⟩
+/-- **the tokenizer is a left inverse of the serializer (followed by `encode`)** on content
+    with at most one DOCTYPE -/
+theorem tokenize_content (rep : Char → Bool) (hr : AsciiRep rep) (fs : List FEv) (h : contentOK true fs = true)
+    (st : SerSt) (hst : st.inCdata = false) (hdt : st.haveDoctype = false) :
+    ∃ out, serRunEnc rep st fs = some out ∧ tokenize out = some (tokOf fs) := by
+  obtain ⟨out, r⟩ := tokGo_content rep hr true fs h st hst (fun _ => hdt)
+  exact ⟨out, r.ser, tokenize_of_tokGo out _ r.nocr
+    (body_no_decl rep hr true fs h st hst (fun _ => hdt) out r.ser) (r.tok _ (Nat.lt_succ_self _))⟩
 
 /-- … and on whole documents (`docTextOK`) -/
-theorem tokenize_doc (fs : List FEv) (h : docTextOK fs = true) :
-    ∃ out, serRun SerSt.init fs = some out ∧ tokenize out = some (tokOf fs) := by
+theorem tokenize_doc (rep : Char → Bool) (hr : AsciiRep rep) (fs : List FEv) (h : docTextOK fs = true) :
+    ∃ out, serRunEnc rep SerSt.init fs = some out ∧ tokenize out = some (tokOf fs) := by
   unfold docTextOK at h
   split at h
   · rename_i v e sa rest
     simp only [Bool.and_eq_true, Bool.not_eq_true'] at h
     obtain ⟨⟨hd, hnt⟩, hc⟩ := h
-    obtain ⟨out', r⟩ := tokGo_content true rest hc { SerSt.init with haveDecl := true } rfl (fun _ => rfl)
-    obtain ⟨w1, w2⟩ := ws_res _ rest out' r hnt
+    obtain ⟨out', r⟩ := tokGo_content rep hr true rest hc { SerSt.init with haveDecl := true } rfl (fun _ => rfl)
+    obtain ⟨w1, w2⟩ := ws_res rep _ rest out' r hnt
     have hs := r.ser
     simp only [SerSt.init] at hs
-    refine ⟨emitDecl v e sa ++ out', by simp [serRun_cons, serStep, SerSt.init, hs], ?_⟩
+    refine ⟨emitDecl v e sa ++ out', by simp [serRunEnc_cons, serStepEnc, serStep, SerSt.init, hs], ?_⟩
     have hcr : '\r' ∉ emitDecl v e sa ++ out' := by
       rw [emitDecl_eq]
       exact nm_app (nm_app (by decide) (cr_not_mem_declTail v e sa hd)) r.nocr
@@ -278,7 +280,51 @@ theorem tokenize_doc (fs : List FEv) (h : docTextOK fs = true) :
     rw [w2 _ (Nat.lt_succ_self _)]
     simp [tokOf]
   · rename_i hne
-    exact tokenize_content fs h SerSt.init rfl rfl
+    exact tokenize_content rep hr fs h SerSt.init rfl rfl
+
+/-! ### `encode` after the serializer -/
+
+theorem encodeText_append (rep : Char → Bool) (a b : Str) :
+    encodeText rep (a ++ b) = encodeText rep a ++ encodeText rep b := by
+  simp [encodeText]
+
+theorem encodeText_rep (rep : Char → Bool) (s : Str) (h : s.all rep = true) : encodeText rep s = s := by
+  induction s with
+  | nil => rfl
+  | cons c cs ih =>
+    simp only [List.all_cons, Bool.and_eq_true] at h
+    have := ih h.2
+    simp only [encodeText, List.flatMap_cons] at this ⊢
+    rw [this]; simp [h.1]
+
+theorem emitAttrsEnc_all (a : List (Str × Str)) : emitAttrsEnc (fun _ => true) a = emitAttrs a := by
+  induction a with
+  | nil => rfl
+  | cons x xs ih =>
+    obtain ⟨k, v⟩ := x
+    unfold emitAttrsEnc at ih ⊢
+    simp only [List.map_cons, emitAttrsWith, emitAttrs]
+    rw [ih]
+    simp [encAttr, encEscStr, encodeText_all]
+
+theorem serRunEnc_all (st : SerSt) (fs : List FEv) : serRunEnc (fun _ => true) st fs = serRun st fs := by
+  induction fs generalizing st with
+  | nil => rfl
+  | cons e es ih =>
+    have hstep : serStepEnc (fun _ => true) st e = serStep st e := by
+      cases e with
+      | start n a => simp [serStepEnc, serStep, emitStart, emitAttrsEnc_all]
+      | empty n a => simp [serStepEnc, serStep, emitStart, emitAttrsEnc_all]
+      | end_ n => rfl
+      | other ev =>
+        cases ev with
+        | text s f => simp only [serStepEnc, serStep, encEscStr, encodeText_all]
+        | _ => rfl
+    rw [serRunEnc_cons, serRun_cons, hstep]
+    cases serStep st e with
+    | none => rfl
+    | some r => obtain ⟨st', out⟩ := r; simp only [ih]
+
 
 /-! ### the namespace stage does not see the line breaks of the prolog -/
 
